@@ -128,7 +128,7 @@ def h_reps(i: int, j: int, pos: int) -> bool:
 
 
 # ------------------------------------------------------------------ coherence over histories
-STEPS = ['fp(v)', 'fp(t)', 'fp(view)', 'v[i]=x', 'v[slice]=seq', 'v[mask]=x', 'v[idx]=seq', 'v[idx dup]=seq', 'v[vec dup]=seq', 'v promote', 'v[i]=None', 't[i,j]=x', 't[i]=row', 't[:,j]=col', 'view[i]=x',
+STEPS = ['fp(v)', 'fp(t)', 'fp(view)', 'v two writes', 'view two writes', 'v[i]=x', 'v[slice]=seq', 'v[mask]=x', 'v[idx]=seq', 'v[idx dup]=seq', 'v[vec dup]=seq', 'v promote', 'v[i]=None', 't[i,j]=x', 't[i]=row', 't[:,j]=col', 'view[i]=x',
          't.a=vec', 't region', 'read-only', 'failed write', 'rename', 'derive v[slice]', 'derive v.copy', 'derive v[mask]', 'derive t[rows]', 'derive t[cols]', 'derive view.copy']
 
 
@@ -162,13 +162,13 @@ class EagerReuseId:
         return mid
 
 
-def _coh_body(steps, poss, view_first=False):
+def _coh_body(steps, poss, view_first=False, skip_mid=False):
     import serif.vector as sv, serif.table as stb
     saved = [(m_, m_.__dict__.get('id')) for m_ in (sv, stb)]
     model = EagerReuseId()
     sv.id = model; stb.id = model
     try:
-        return _coh_body2(steps, poss, view_first)
+        return _coh_body2(steps, poss, view_first, skip_mid)
     finally:
         for m_, old in saved:
             if old is None:
@@ -177,7 +177,7 @@ def _coh_body(steps, poss, view_first=False):
                 m_.id = old
 
 
-def _coh_body2(steps, poss, view_first=False):
+def _coh_body2(steps, poss, view_first=False, skip_mid=False):
     v = Vector([1, 2, 3], name='v')
     t = Table({'a': [4, 5, 6], 'b': [7, 8, 9]})
     view = t.cols()[1]
@@ -188,6 +188,10 @@ def _coh_body2(steps, poss, view_first=False):
             if st == 'fp(v)': v.fingerprint()
             elif st == 'fp(t)': t.fingerprint()
             elif st == 'fp(view)': view.fingerprint()
+            elif st == 'v two writes':
+                v[p] = 110 + k; v[(p + 1) % 3] = 120 + k          # two storage swaps with no fingerprint() call in between
+            elif st == 'view two writes':
+                view[p] = 130 + k; view[(p + 2) % 3] = 140 + k
             elif st == 'v[i]=x': v[p] = 100 + k
             elif st == 'v[slice]=seq': v[p:p + 2] = [200 + k, 201 + k][:len(range(*slice(p, p + 2).indices(3)))]
             elif st == 'v[mask]=x': v[[i == p for i in range(3)]] = 300 + k
@@ -225,6 +229,8 @@ def _coh_body2(steps, poss, view_first=False):
             return H.fail('history %r: step %s raised %r' % (steps, st, e))
         if st == 't.a=vec':
             pass
+        if skip_mid and k < len(steps) - 1:
+            continue          # the statement holds 'whether or not it had been called, and cached, earlier': sometimes nothing is asked until the end
         # every object is asked twice, in both orders (a table asked after its column view may behave differently from one asked before)
         order = list(live.items())
         if view_first:
@@ -240,7 +246,7 @@ def _coh_body2(steps, poss, view_first=False):
     return True
 
 
-def h_coherent(s0: int, s1: int, s2: int, p0: int, p1: int, p2: int, view_first: bool) -> bool:
+def h_coherent(s0: int, s1: int, s2: int, p0: int, p1: int, p2: int, view_first: bool, skip_mid: bool) -> bool:
     """
     pre: 0 <= s0 < len(STEPS) and 0 <= s1 < len(STEPS) and 0 <= s2 < len(STEPS) and 0 <= p0 <= 2 and 0 <= p1 <= 2 and 0 <= p2 <= 2
     pre: H.fix(s0=s0)
@@ -254,7 +260,7 @@ def h_coherent(s0: int, s1: int, s2: int, p0: int, p1: int, p2: int, view_first:
     RS = list(range(len(STEPS)))
     steps = [STEPS[H.among(RS, s)] for s in (s0, s1, s2)][:depth]
     poss = [H.among([0, 1, 2], p) for p in (p0, p1, p2)][:depth]
-    if not H.concrete(_coh_body, steps, poss, True if view_first else False): return False
+    if not H.concrete(_coh_body, steps, poss, True if view_first else False, True if skip_mid else False): return False
     return H.ok()
 
 
@@ -283,9 +289,9 @@ def obligations(tier):
                     smoke=[[0, 1, 0], [6, 8, 2]]))
     for s0 in range(len(STEPS)):
         obs.append(dict(name='coherent[H=2,first=%s]' % STEPS[s0], fn='h_coherent', config={'s0': s0, 'H': 2}, budget=90 if q else 300,
-                        bounds='first step fixed per job, every second step of the 26-step alphabet, every position; vector, table, a live column view and derived objects compared with freshly built objects after every step, asked in both orders (solver-chosen which first)',
-                        smoke=[[s0, 0, 0, 1, 1, 0, False], [s0, 12, 0, 0, 2, 0, True]]))
+                        bounds='first step fixed per job, every second step of the 28-step alphabet, every position; vector, table, a live column view and derived objects compared with freshly built objects after every step, asked in both orders (solver-chosen which first)',
+                        smoke=[[s0, 0, 0, 1, 1, 0, False, False], [s0, 14, 0, 0, 2, 0, True, True]]))
         if not q:
             obs.append(dict(name='coherent[H=3,first=%s]' % STEPS[s0], fn='h_coherent', config={'s0': s0, 'H': 3}, budget=1200,
-                            bounds='depth 3: first step fixed per job, every second and third step, every position of the first step (later positions fixed)', smoke=[[s0, 1, 12, 1, 1, 2, True]]))
+                            bounds='depth 3: first step fixed per job, every second and third step, every position of the first step (later positions fixed)', smoke=[[s0, 1, 14, 1, 1, 2, True, True]]))
     return obs
